@@ -36,7 +36,7 @@ def typed(sym):
 
 def ctor_sub(chk, rng, w, wid, sym, plan=None):
     kind = rng.choice(["int", "F", "D", "SD", "fl", "s", "s", "bigint",
-                       "numstr"])
+                       "numstr", "longdec"])
     if kind == "fl":
         f = rng.choice(FLOATS) if rng.random() < 0.6 else \
             float(rand_float_fraction(rng))
@@ -46,6 +46,13 @@ def ctor_sub(chk, rng, w, wid, sym, plan=None):
         s = rng.choice(NUMSTR)
         x = F(s.strip())
         e = ["s", s]
+    elif kind == "longdec":
+        # more significant digits than the default decimal context keeps
+        digits = rng.randint(29, 60)
+        v = rng.randint(10 ** (digits - 1), 10 ** digits - 1) | 1
+        x = F(v, 10 ** rng.randint(0, digits + 5)) * rng.choice([1, -1])
+        e = num(x, rng.choice(["SD", "D", "s"]))
+        kind = "longdec-" + e[0]
     elif kind == "bigint":
         x = F(rng.randint(10 ** 39, 10 ** 40) * rng.choice([1, -1]))
         e = num(x, "int")
@@ -59,7 +66,7 @@ def ctor_sub(chk, rng, w, wid, sym, plan=None):
         c = Q(e, sym)
     elif via == "type":
         c = ["c", typed(sym), [e, U(sym)]]
-    elif kind in ("s", "numstr", "SD"):
+    elif kind in ("s", "numstr", "SD", "longdec-s", "longdec-SD"):
         via = "factory"
         c = Q(e, sym)
     elif via == "mul":
@@ -214,7 +221,8 @@ def malformed_sub(chk, rng, w, wid, sym):
 
 def run(chk, R, tier, seed):
     rng = random.Random("C18-%d" % seed)
-    for k in ("int", "F", "D", "SD", "fl", "s", "bigint", "numstr"):
+    for k in ("int", "F", "D", "SD", "fl", "s", "bigint", "numstr",
+              "longdec-SD", "longdec-D", "longdec-s"):
         chk.require("kind|" + k)
     chk.require("floats needing > 300 digits")
     for c in MALFORMED_CLASSES:
